@@ -7,11 +7,24 @@ use std::process::Command;
 use vmodel::ast::*;
 use vmodel::model::*;
 
+/// Probe crates of one cargo workspace share one build of leptos_i18n with the union of their features:
+/// probes that need a build WITHOUT `icu_compiled_data` live in a second workspace ("l3nc").
+static WORKSPACE: std::sync::atomic::AtomicUsize = std::sync::atomic::AtomicUsize::new(0);
+pub fn select_workspace(no_compiled_data: bool) {
+    WORKSPACE.store(no_compiled_data as usize, std::sync::atomic::Ordering::SeqCst);
+}
+fn ws_name() -> &'static str {
+    if WORKSPACE.load(std::sync::atomic::Ordering::SeqCst) == 1 {
+        "l3nc"
+    } else {
+        "l3"
+    }
+}
 pub fn l3_root() -> PathBuf {
-    vmodel::report::verif_root().join("work").join("l3")
+    vmodel::report::verif_root().join("work").join(ws_name())
 }
 pub fn l3_target() -> PathBuf {
-    vmodel::report::verif_root().join("target").join("l3")
+    vmodel::report::verif_root().join("target").join(ws_name())
 }
 
 pub struct Probe {
@@ -25,11 +38,15 @@ pub struct Probe {
     pub stmts: Vec<String>,
     /// additional `[[bin]]` targets (name, full source) for negative compile probes
     pub extra_bins: Vec<(String, String)>,
+    /// replaces the default leptos_i18n feature set (e.g. a build WITHOUT icu_compiled_data)
+    pub base_features: Option<Vec<&'static str>>,
+    /// extra lines for [dependencies]
+    pub extra_deps: String,
 }
 
 impl Probe {
     pub fn new(name: &str, project: Project) -> Probe {
-        Probe { name: name.to_string(), project, format: Format::Json, features: vec![], items: String::new(), stmts: vec![], extra_bins: vec![] }
+        Probe { name: name.to_string(), project, format: Format::Json, features: vec![], items: String::new(), stmts: vec![], extra_bins: vec![], base_features: None, extra_deps: String::new() }
     }
 }
 
@@ -123,7 +140,7 @@ impl Probe {
     }
 
     pub fn manifest(&self) -> String {
-        let mut feats = base_features();
+        let mut feats = self.base_features.clone().unwrap_or_else(base_features);
         feats.push(match self.format {
             Format::Json => "json_files",
             Format::Json5 => "json5_files",
@@ -134,9 +151,10 @@ impl Probe {
         feats.dedup();
         let feats: Vec<String> = feats.iter().map(|f| format!("\"{f}\"")).collect();
         let mut m = format!(
-            "[package]\nname = \"{}\"\nversion = \"0.1.0\"\nedition = \"2021\"\n\n[dependencies]\nleptos = {{ version = \"0.7.7\", default-features = false, features = [\"ssr\"] }}\nleptos_i18n = {{ path = \"/repo/leptos_i18n\", default-features = false, features = [{}] }}\nserde = \"1\"\nserde_json = \"1\"\nany_spawner = {{ version = \"0.2\", features = [] }}\ncodee = \"0.3\"\nfutures = {{ version = \"0.3\", features = [\"executor\"] }}\nicu_locid_transform = {{ version = \"1.5\", features = [\"compiled_data\"] }}\nicu_locid = \"1.5\"\ntinystr = \"0.7\"\nwriteable = \"0.5\"\n\n",
+            "[package]\nname = \"{}\"\nversion = \"0.1.0\"\nedition = \"2021\"\n\n[dependencies]\nleptos = {{ version = \"0.7.7\", default-features = false, features = [\"ssr\"] }}\nleptos_i18n = {{ path = \"/repo/leptos_i18n\", default-features = false, features = [{}] }}\nserde = \"1\"\nserde_json = \"1\"\nany_spawner = {{ version = \"0.2\", features = [] }}\ncodee = \"0.3\"\nfutures = {{ version = \"0.3\", features = [\"executor\"] }}\nicu_locid_transform = {{ version = \"1.5\", features = [\"compiled_data\"] }}\nicu_locid = \"1.5\"\ntinystr = \"0.7\"\nwriteable = \"0.5\"\n{}\n",
             self.name,
-            feats.join(", ")
+            feats.join(", "),
+            self.extra_deps
         );
         for (b, _) in &self.extra_bins {
             m.push_str(&format!("[[bin]]\nname = \"{b}\"\npath = \"src/bin_{b}.rs\"\n\n"));
